@@ -150,6 +150,62 @@ def replay(c, prop, cases, label, inmem=False, timeout=1500):
     return results
 
 
+def model_check_install(c, quick):
+    """LSMInstall.tla: the two-step installation of a compaction result against a concurrent read."""
+    d = vlib.stage_specs(["lsm"])
+    consts = dict(Keys="{1, 2}", MaxTs=("2" if quick else "3"), MaxLevel="2", MinL0L0="2", NVK="1", Kinds='{"val", "del"}',
+                  L0L0KeepsTombstones="TRUE", MaxId=("4" if quick else "5"), InstallOrder='"code"')
+    open(os.path.join(d, "I.cfg"), "w").write(cfg_text("ISpec", consts, ("ReadCorrect",)))
+    res = vlib.run_tlc(d, "LSMInstall_MC", "I.cfg", timeout=2400, workers=None)
+    c.add_tlc("LSMInstall (replace, then delete; read level by level)", res)
+    vlib.require_tlc_ok(res, "LSMInstall")
+
+
+def replay_install(c, prop, cases, label):
+    """One point read interleaved level by level (gate get.level) with replaceTables / deleteTables of
+    the case's production compaction (gates compact.beforeReplace / compact.beforeDelete): every pair of
+    positions, every key, every timestamp at or above the watermark."""
+    if not cases:
+        return
+    binp = vlib.go_build("cmd/lsmreplay")
+    d = vlib.scratch("inst-")
+    inp = os.path.join(d, "cases.ndjson")
+    open(inp, "w").write("".join(json.dumps(dict(cs, tiny=False)) + "\n" for cs in cases))
+    nproc = min(vlib.NCPU, len(cases))
+    env = vlib.goenv()
+    env["TMPDIR"] = d
+    t0 = time.time()
+    procs = [subprocess.Popen([binp, "-in", inp, "-install", "-shard", str(s), "-nshards", str(nproc)],
+                              stdout=subprocess.PIPE, stderr=subprocess.PIPE, env=env, text=True) for s in range(nproc)]
+    results = []
+    for p in procs:
+        try:
+            out, err = p.communicate(timeout=1800)
+        except subprocess.TimeoutExpired:
+            p.kill()
+            raise Inconclusive("lsmreplay -install timed out")
+        if p.returncode != 0:
+            raise Inconclusive("lsmreplay -install failed: %s" % err[-1500:])
+        results += [json.loads(l) for l in out.splitlines() if l.strip()]
+    bad = [r for r in results if not r["ok"]]
+    c.cov["engines"].append({"replay": label, "cases": len(results), "mismatches": len(bad), "wall_s": round(time.time() - t0, 1)})
+    nh = 0
+    for r in bad[:6]:
+        if r["sig"].startswith("harness."):
+            nh += 1
+            continue
+        one = os.path.join(d, "one.ndjson")
+        open(one, "w").write(json.dumps(dict(cases[r["case"]], tiny=False)) + "\n")
+        rc, out, err, _ = vlib.run([binp, "-in", one, "-install"], timeout=600, env=env)
+        if rc != 0 or not out.strip() or json.loads(out.splitlines()[0])["ok"]:
+            log("install deviation did not reproduce:", r["sig"])
+            continue
+        c.violation("lsm:%s %s" % (r["fam"], r["sig"]), r.get("detail"), {"case": cases[r["case"]], "tool": "lsmreplay -install"})
+    if nh > max(2, len(cases) // 5):
+        raise Inconclusive("lsmreplay -install: %d harness-level problems" % nh)
+    c.cov["traces_validated_against_impl"] += len(results)
+
+
 def describe(case):
     def ents(es):
         return " ".join("k%d@%d%s" % (e["k"], e["ts"], "" if e["kind"] == "val" else ":" + e["kind"])
